@@ -44,6 +44,10 @@ AREAS = [
         ("Client", "put#map", "C17_fn_frontend_put_conv"),
         ("Client", "get#map", "C17_fn_frontend_get_conv"),
     ]),
+    # the glue that acts on the verdict of check_hmac when the signer starts (async; the awaits are rewritten, see GLUE_RULES)
+    ("Glue", "vls-util/src/persist.rs", [
+        ("ExternalPersistWithHelper", "init_state", "C17_fn_init_state"),
+    ]),
     ("Redb", "vls-persist/src/kvv/redb.rs", [
         ("RedbKVVStore", "encode_vv", "C16_gen_encode_vv"),
         ("RedbKVVStore", "decode_vv", "C16_gen_decode_vv"),
@@ -54,7 +58,18 @@ AREA_OUT = {"Redb": ("C16", "KvvBytesFn.lean", "C16Gen.lean")}
 # struct declarations read from other files; functions of other areas callable by bare name
 STRUCT_FILES = {"Lss": ["lightning-storage-server/lib/src/model.rs"], "LssDrv": ["lightning-storage-server/lib/src/model.rs"],
                 "Frontend": ["lightning-storage-server/lib/src/model.rs"]}
-IMPORT_FNS = {"LssDrv": "Lss", "Frontend": "Lss"}
+IMPORT_FNS = {"LssDrv": "Lss", "Frontend": "Lss", "Glue": "Core"}
+STRUCT_FILES["Glue"] = ["vls-core/src/persist/mod.rs"]
+# async idioms of an area, rewritten in the source text before parsing (regex, replacement, expected count); fail closed
+GLUE_RULES = {"Glue": [
+    (r"let client = self\.persist_client\.lock\(\)\.await;", "", 1),            # the handle of the storage client
+    (r"\bclient\.get\(([^;]*)\)\.await\.unwrap\(\)", r"client_get(\1)", 1),     # the read: an explicit parameter (transport errors panic)
+    (r"\basync fn\b", "fn", None),
+]}
+# values that only stand for a `&dyn Trait` argument
+DYN_CTORS = {"SimpleEntropy": "EntropySource"}
+# external calls with a result (after GLUE_RULES): name -> (parameter types, result type)
+EXT_CALLS = {"client_get": (["String", "&[u8]"], "(Mutations, Vec<u8>)")}
 # functions that are not translated but passed in as explicit parameters (trusted boundary)
 EXTERNAL_FNS = {"crypt_value": (["bytes", "bytes", "i64", "bytes"], 3)}   # (param kinds, index of the &mut [u8] that is replaced by the result)
 # result types of methods of `&dyn Trait` parameters (declared in other files; the value becomes an explicit parameter)
@@ -243,6 +258,8 @@ class Parser:
         if n == "Vec" and len(args) == 1: return ("bytes",) if args[0] == ("u8",) else ("list", args[0])
         if n == "Result" and len(args) == 2: return ("result", args[0], args[1])
         if n == "HmacEngine": return ("eng",)
+        if n in ("Arc", "Mutex", "Box", "AsyncMutex") and len(args) == 1: return args[0]
+        if n == "BTreeMap" and len(args) == 2 and args[0] == ("bytes",): return ("map", args[1])
         if args: self.err("generic type %s is outside the subset" % n)
         return ("named", n)
 
@@ -359,6 +376,10 @@ class Parser:
         k, s = self.pkk(), self.pk()
         if k == "int":
             self.nx(); return ("int", int(s.replace("_", ""), 0))
+        if k == "str":
+            self.nx()
+            if s.startswith("b") or "\\" in s: self.err("string literal with a prefix/escape")
+            return ("strlit", s[1:-1])
         if s == "(" :
             self.nx(); es = []
             while not self.acc(")"):
@@ -399,7 +420,13 @@ class Parser:
                 self.nx(); self.type_(); self.exp(">"); continue
             segs.append(self.ident())
         if self.pk() == "!" and self.pk(1) in ("(", "[", "{") and len(segs) == 1:
-            self.nx(); self.group(); return ("macro", segs[0])
+            self.nx(); a = self.i; self.group()
+            first = None
+            if segs[0] in ("assert", "debug_assert"):
+                q = Parser(self.t[:self.i - 1] + [("eof", "", 0)], a + 1, self.rel)
+                first = q.expr()
+                if q.pk() not in (",", ""): self.err("assert! argument")
+            return ("macro", segs[0], first)
         if self.pk() == "{" and not ns and segs[-1][0].isupper():
             self.nx(); fields = []
             while not self.acc("}"):
@@ -437,11 +464,19 @@ class FnInfo: pass
 class Area:
     def __init__(self, repo, name, rel, imports=None):
         self.repo, self.name, self.rel = repo, name, rel
-        self.idx = Index(rel, open(os.path.join(repo, rel)).read())
+        src = open(os.path.join(repo, rel)).read()
+        for rx, rp, want in GLUE_RULES.get(name, []):
+            src, n = re.subn(rx, rp, src)
+            if want is not None and n != want:
+                raise HmErr("%s: idiom /%s/ applies %d times, expected %d" % (rel, rx, n, want))
+        self.idx = Index(rel, src)
         self.structs = dict(self.idx.structs); self.newtypes = dict(self.idx.newtypes)
+        self.nt_idx = {n: self.idx for n in self.newtypes}
         for r in STRUCT_FILES.get(name, []):
             ix = Index(r, open(os.path.join(repo, r)).read())
             for k, v in ix.structs.items(): self.structs.setdefault(k, v)
+            for k, v in ix.newtypes.items():
+                if k not in self.newtypes: self.newtypes[k] = v; self.nt_idx[k] = ix
         self.fns, self.failed, self.order, self.used_structs = {}, {}, [], []
         self.imports = imports
 
@@ -457,19 +492,22 @@ class Area:
                 return self.resolve(self.newtypes[n], impl)
             return ("opaque", n)
         if k == "list": return ("list", self.resolve(t[1], impl))
+        if k == "map": return ("map", self.resolve(t[1], impl))
         if k == "tuple": return ("tuple", [self.resolve(x, impl) for x in t[1]])
         if k == "result": return ("result", self.resolve(t[1], impl), self.resolve(t[2], impl))
         return t
 
     def check_newtype(self, n):
         """a tuple struct `N(Vec<..>)` is used as its content: its `iter` must be `self.0.iter()`"""
-        k = self.idx.fns.get((n, "iter"))
-        if not isinstance(k, int): raise HmErr("newtype %s without an iter method" % n)
-        p = Parser(self.idx.t, k, self.rel)
-        while p.pk() != "{": p.nx()
-        a = p.i; p.group()
-        body = " ".join(x[1] for x in self.idx.t[a:p.i])
-        if body != "{ self . 0 . iter ( ) }": raise HmErr("%s::iter is not `self.0.iter()`: %s" % (n, body))
+        ix = self.nt_idx[n]
+        for meth in ("iter", "into_iter"):
+            k = ix.fns.get((n, meth))
+            if not isinstance(k, int): raise HmErr("newtype %s without an %s method" % (n, meth))
+            p = Parser(ix.t, k, ix.rel)
+            while p.pk() != "{": p.nx()
+            a = p.i; p.group()
+            body = " ".join(x[1] for x in ix.t[a:p.i])
+            if body != "{ self . 0 . %s ( ) }" % meth: raise HmErr("%s::%s is not `self.0.%s()`: %s" % (n, meth, meth, body))
 
     def field_ty(self, sname, f):
         for fn, ty in self.structs[sname]:
@@ -488,6 +526,7 @@ class Area:
         if k == "eng": return "Hm.Eng"
         if k == "struct": return ("%s.%s" % (self.structs_area(t[1]), t[1]))
         if k == "list": return "(List %s)" % self.lt(t[1])
+        if k == "map": return "(List (Hm.Bytes × %s))" % self.lt(t[1])
         if k == "tuple": return "(" + " × ".join(self.lt(x) for x in t[1]) + ")"
         raise HmErr("type %r is outside the subset" % (t,))
 
@@ -542,6 +581,11 @@ class Area:
         return {"name": "%s_%s" % (base, meth), "params": params, "self": None, "ret": ty(rty), "body": (stmts, c[2]),
                 "impl": impl, "text": "fn %s ( .. ) { .. . %s ( %s ) .. }" % (base, meth, c[1]), "line": t[hits[0]][2]}
 
+    def lookup_method(self, sname, m):
+        if (sname, m) in self.idx.fns: return self, self.get(sname, m)
+        if self.imports is not None and (sname, m) in self.imports.idx.fns: return self.imports, self.imports.get(sname, m)
+        return None, None
+
     def lookup_fn(self, name):
         """callee by bare name: this area, then the imported one"""
         if (None, name) in self.idx.fns: return self, self.get(None, name)
@@ -565,11 +609,17 @@ class Tr:
             if self.impl not in a.structs: raise HmErr("self of a non-struct")
             env["self"] = a.resolve(("named", self.impl)); params.append(("self", env["self"]))
             if f["self"] == "mut": self.muts.append("self")
+        all_params = [("self", env["self"])] if f["self"] else []
         for pn, ty, refmut in f["params"]:
             t = a.resolve(ty, self.impl)
             env[pn] = t
+            all_params.append((pn, t))
             if t[0] != "dyn": params.append((pn, t))
             if refmut: self.muts.append(pn)
+        # a `&self` method that takes `self.<field>.lock().unwrap()` mutably returns the new self
+        if f["self"] == "ref" and any(st[0] == "let" and self.lock_alias(st[2]) for st in f["body"][0]):
+            self.muts.append("self")
+        self.aliases = {}
         self.ret = a.resolve(f["ret"], self.impl)
         self.is_result = self.ret[0] == "result"
         self.val_ty = self.ret[1] if self.is_result else self.ret
@@ -582,6 +632,7 @@ class Tr:
             lines = self.block(f["body"], env, 1, top=True)
         info = FnInfo()
         info.impl, info.name, info.params, info.muts = self.impl, f["name"], params, list(self.muts)
+        info.all_params = all_params
         info.lean_name = (self.impl + "." if self.impl else "") + lid(f["name"])
         info.val_ty, info.is_result, info.monadic = self.val_ty, self.is_result, self.monadic
         info.mac, info.exts, info.dropped = self.mac, self.exts, [x for i, x in enumerate(self.dropped) if x not in self.dropped[:i]]
@@ -590,6 +641,13 @@ class Tr:
         info.out_ty = outs[0] if len(outs) == 1 else ("tuple", outs)
         info.body = lines
         return info
+
+    def lock_alias(self, e):
+        """`self.<field>.lock().unwrap()` -> field name"""
+        if e[0] == "mcall" and e[2] == "unwrap" and not e[3] and e[1][0] == "mcall" and e[1][2] == "lock" and not e[1][3] \
+                and e[1][1][0] == "field" and e[1][1][1] == ("path", ["self"]):
+            return e[1][1][2]
+        return None
 
     # the Lean value returned for Rust return value `term`
     def pack(self, term):
@@ -656,6 +714,15 @@ class Tr:
                 if c.replace(" ", "") != '[cfg(feature="crypt")]': raise HmErr("attribute %s on a statement" % c)
                 if "default-feature `crypt` taken as enabled" not in self.dropped:
                     self.dropped.append("default-feature `crypt` taken as enabled")
+            if k == "let" and st[1][0] == "pvar" and self.lock_alias(st[2]):
+                fld = self.lock_alias(st[2])
+                env[st[1][1]] = ("alias", fld, self.a.field_ty(env["self"][1], fld))
+                continue
+            if k == "let" and st[1][0] == "pvar" and st[2][0] == "call" and len(st[2][1]) == 2 and st[2][1][1] == "new" \
+                    and st[2][1][0] in DYN_CTORS and not st[2][2]:
+                env[st[1][1]] = ("dyn", DYN_CTORS[st[2][1][0]])
+                self.dropped.append("`%s::new()` only stands for the `&dyn %s` argument" % (st[2][1][0], DYN_CTORS[st[2][1][0]]))
+                continue
             if k == "let":
                 pre = []
                 term, t = self.expr(st[2], env, pre)
@@ -670,6 +737,13 @@ class Tr:
                 out += self.for_(st, env, d)
             elif k == "expr":
                 e = st[1]
+                if e[0] == "macro" and e[1] == "assert":
+                    pre = []
+                    c, ct = self.expr(e[2], env, pre)
+                    if ct != ("bool",): raise HmErr("assert! of a non-bool")
+                    pre.append(("bind", "_", "Rs.assert %s" % paren(c)))
+                    out += self.flush(pre, d)
+                    continue
                 if e[0] == "macro":
                     if e[1] not in LOG: raise HmErr("macro %s!" % e[1])
                     self.dropped.append("%s! at line %d (logging)" % (e[1], st[-1]))
@@ -710,6 +784,8 @@ class Tr:
     def place(self, e):
         """the variable (or self.field) a `&mut` argument / receiver denotes"""
         if e[0] == "ref": return self.place(e[1])
+        if e[0] == "path" and len(e[1]) == 1 and getattr(self, "cur_env", {}).get(e[1][0], ("x",))[0] == "alias":
+            return ("self", self.cur_env[e[1][0]][1])
         if e[0] == "path" and len(e[1]) == 1: return ("var", e[1][0])
         if e[0] == "field" and e[1] == ("path", ["self"]): return ("self", e[2])
         if e[0] == "field":
@@ -734,7 +810,7 @@ class Tr:
                 for x in e: walk(x)
                 return
             if not isinstance(e, tuple) or not e: return
-            if e[0] == "mcall" and e[2] in ("input", "append", "split_off", "push", "extend_from_slice"):
+            if e[0] == "mcall" and e[2] in ("input", "append", "split_off", "push", "extend_from_slice", "insert"):
                 try:
                     pl = self.place(e[1])
                     v = "self" if pl[0] == "self" else pl[1]
@@ -815,6 +891,13 @@ class Tr:
     def effect(self, e, env, pre):
         """expression statement"""
         k = e[0]
+        self.cur_env = env
+        if k == "mcall" and e[2] == "insert" and len(e[3]) == 2:
+            base, bt = self.expr(e[1], env, pre)
+            if bt[0] != "map": raise HmErr("insert on a non-map")
+            kk, kt = self.expr(e[3][0], env, pre); vv, vt = self.expr(e[3][1], env, pre)
+            if kt != ("bytes",) or vt != bt[1]: raise HmErr("map insert types")
+            self.set_place(self.place(e[1]), "Hm.bmapInsert %s %s %s" % (paren(base), paren(kk), paren(vv)), env, pre); return
         if k == "assign":
             term, t = self.expr(e[2], env, pre)
             _, lt_ = self.expr(e[1], env, [])
@@ -841,6 +924,11 @@ class Tr:
 
     def expr(self, e, env, pre):
         k = e[0]
+        self.cur_env = env
+        if k == "strlit":
+            return "[" + ", ".join(str(b) for b in e[1].encode()) + "]", ("bytes",)
+        if k == "path" and len(e[1]) == 1 and e[1][0] in env and env[e[1][0]][0] == "alias":
+            return "self.%s" % lid(env[e[1][0]][1]), env[e[1][0]][2]
         if k == "ref": return self.expr(e[1], env, pre)
         if k == "int": return str(e[1]), ("intlit",)
         if k == "unit": return "()", ("unit",)
@@ -966,6 +1054,19 @@ class Tr:
             self.add_ext("ext_" + segs[0], " → ".join(self.a.lt((kd,)) for kd in kinds) + " → Hm.Bytes")
             self.set_place(self.place(args[mi]), "ext_%s %s" % (segs[0], " ".join(terms)), env, pre)
             return "()", ("unit",)
+        if len(segs) == 1 and segs[0] in EXT_CALLS:
+            ptys, rty = EXT_CALLS[segs[0]]
+            def ty(sx):
+                q = Parser(lex(sx) + [("eof", "", 0)], 0, "<spec>"); return self.a.resolve(q.type_(), self.impl)
+            pts, rt = [ty(x) for x in ptys], ty(rty)
+            if len(args) != len(pts): raise HmErr("external %s arity" % segs[0])
+            terms = []
+            for x, pt in zip(args, pts):
+                term, t = self.expr(x, env, pre)
+                if t != pt: raise HmErr("external %s argument: %r vs %r" % (segs[0], t, pt))
+                terms.append(paren(term))
+            self.add_ext("ext_" + segs[0], " → ".join([self.a.lt(x) for x in pts] + [self.a.lt(rt)]))
+            return "(ext_%s %s)" % (segs[0], " ".join(terms)), rt
         ar, info = self.callee(segs)
         if info is None: raise HmErr("call of unknown function %s" % "::".join(segs))
         if len(args) != len(info.params): raise HmErr("arity of %s" % info.name)
@@ -1016,16 +1117,30 @@ class Tr:
         if k == "i64" and m == "to_be_bytes" and not args: return "(Hm.ibeBytes8 %s)" % base, ("bytes",)
         if k == "list" and m in ("iter", "into_iter", "clone") and not args: return base, bt
         if k == "struct" and m == "clone" and not args: return base, bt
-        if k == "struct" and (bt[1], m) in self.a.idx.fns:
-            info = self.a.get(bt[1], m)
-            if info.muts or info.is_result: raise HmErr("mutating/Result method call")
+        if k == "struct" and self.a.lookup_method(bt[1], m)[1] is not None:
+            ar, info = self.a.lookup_method(bt[1], m)
+            if info.is_result or [x for x in info.muts if x != "self"]: raise HmErr("Result / &mut-argument method call")
+            if len(args) != len(info.all_params) - 1: raise HmErr("arity of %s" % m)
             terms = []
-            for (pn, pt), x in zip(info.params[1:], args):
+            for (pn, pt), x in zip(info.all_params[1:], args):
+                if pt[0] == "dyn":
+                    y = x[1] if x[0] == "ref" else x
+                    if not (y[0] == "path" and len(y[1]) == 1 and env.get(y[1][0], ("x",))[0] == "dyn"):
+                        raise HmErr("argument for the dyn parameter %s of %s" % (pn, m))
+                    continue
                 term, t = self.expr(x, env, pre)
                 if t != pt: raise HmErr("argument %s of %s" % (pn, m))
                 terms.append(paren(term))
             if info.mac: self.mac = True
-            return "(%s)" % " ".join(["%s.%s" % (self.a.name, info.lean_name)] + (["mac"] if info.mac else []) + [paren(base)] + terms), info.val_ty
+            for x in info.exts: self.add_ext(*x)
+            call = " ".join(["%s.%s" % (ar.name, info.lean_name)] + (["mac"] if info.mac else []) + [n for n, _ in info.exts] + [paren(base)] + terms)
+            if "self" in info.muts:
+                has_val = info.val_ty != ("unit",)
+                ns, r = self.fresh("s"), self.fresh("r")
+                pre.append(("let", "(%s, %s)" % (ns, r) if has_val else ns, call))
+                self.set_place(self.place(recv), ns, env, pre)
+                return (r if has_val else "()"), info.val_ty
+            return "(%s)" % call, info.val_ty
         raise HmErr("method .%s on %r is outside the subset" % (m, bt))
 
 
@@ -1095,7 +1210,9 @@ def extract(repo):
             out.append("/-- `struct %s` -/" % sname)
             out.append("structure %s where" % sname)
             for f, ty in ar.structs[sname]:
-                out.append("  %s : %s" % (lid(f), ar.lt(ar.resolve(ty, sname)) if ty is not None else "Unit"))
+                try: ft = ar.lt(ar.resolve(ty, sname)) if ty is not None else "Unit"
+                except HmErr: ft = "Unit"     # a field of a type outside the subset (never read by the translated functions)
+                out.append("  %s : %s" % (lid(f), ft))
             out += ["deriving DecidableEq, Repr", ""]
         for key in ar.order:
             out += emit_fn(ar.fns[key]) + [""]
